@@ -45,6 +45,12 @@ RESERVED = ('priority', 'provider', 'params')
 #: what the feed doubles advertise: feed key -> {dsl source object: parser-native stand-in}
 _ADVERTISED: dict = {}
 _ORDER: dict = {}
+#: every call of a feed double's constructor (its `key`), in order - also the ones that go on to raise
+_CTOR_LOG: list = []
+NOWHERE = 'verif-c09-nowhere'  # a provider reference nobody registered
+REFUSALS = ('RuntimeError', 'ConnectionRefusedError', 'ValueError', 'MissingError')  # what a constructor may raise
+#: storage-native handles a content resolver may map a source to: `parser.Source` is an unconstrained TypeVar
+FALSY = (None, 0, '', (), False, 0.0, frozenset())
 _CACHE: dict = {}
 
 
@@ -91,6 +97,44 @@ def hidden_tables(advertised: frozenset, node, above=None):
         return
     for c in children(node):
         yield from hidden_tables(advertised, c, above)
+
+
+def retable(ast, old, new):
+    """`ast` with every occurrence of the node `old` replaced by `new` (a table also where columns refer to it)"""
+    if ast == old:
+        return new
+    if isinstance(ast, tuple):
+        return tuple(retable(x, old, new) for x in ast)
+    return ast
+
+
+def schema_twin(table, variant: int = 0):
+    """another catalog version of the table: the same NAME (it prints the same), another schema"""
+    _, name, fields = table
+    if variant % 2 and len(fields) > 1:
+        return ('table', name, fields[:-1])
+    return ('table', name, fields + (('segment', 'string'),))
+
+
+M61 = 2 ** 61 - 1
+
+
+def colliding(v: int) -> int:
+    """another integer with the same `hash()`"""
+    if v == -1:
+        return -2
+    if v == -2:
+        return -1
+    return v + M61 if v >= 0 else v - M61
+
+
+def int_literals(ast):
+    if isinstance(ast, tuple):
+        if len(ast) == 2 and ast[0] == 'lit' and isinstance(ast[1], tuple) and ast[1][0] == 'int':
+            yield ast
+        else:
+            for x in ast:
+                yield from int_literals(x)
 
 
 def tuplify(x):
@@ -165,7 +209,10 @@ def _doubles():
             def read(cls, statement, **kwargs):
                 raise NotImplementedError
 
-        def __init__(self, key: int, **options):
+        def __init__(self, key: int, explode=None, **options):
+            _CTOR_LOG.append(key)
+            if explode is not None:  # a backend refusing the connection, a bad parameter, ...
+                raise _refusal(explode)('the backend refused')
             super().__init__()
             self.key = key
             self.options = options  # whatever else the configuration section hands to the constructor
@@ -182,7 +229,10 @@ def _doubles():
 
         Reader = alchemy.Reader
 
-        def __init__(self, key: int, **options):
+        def __init__(self, key: int, explode=None, **options):
+            _CTOR_LOG.append(key)
+            if explode is not None:
+                raise _refusal(explode)('the backend refused')
             super().__init__()
             self.key = key
             self.options = options
@@ -197,16 +247,23 @@ def _doubles():
     class Direct(setup.Feed):
         """A `[FEED.x]` descriptor without a config file (as tests/io/_input/test_input.py does)."""
 
-        def __new__(cls, reference: str, priority: float, key: int):
-            return tuple.__new__(cls, [reference, float(priority), {'key': key}])
+        def __new__(cls, reference: str, priority: float, params: dict):
+            return tuple.__new__(cls, [reference, float(priority), dict(params)])
 
     _CACHE['cls'] = (Double, DoubleSql, Direct)
     return _CACHE['cls']
 
 
-def _native(i: int, ast, sql: bool):
+def _refusal(name: str):
+    import forml
+
+    return {'RuntimeError': RuntimeError, 'ConnectionRefusedError': ConnectionRefusedError, 'ValueError': ValueError,
+            'MissingError': forml.MissingError}[name]
+
+
+def _native(i: int, ast, sql: bool, falsy: bool = False):
     if not sql:
-        return ('native', i)
+        return FALSY[i % len(FALSY)] if falsy else ('native', i)
     import sqlalchemy
 
     return sqlalchemy.table(ast[1].lower() if ast[0] == 'table' else f'denorm{i}')
@@ -224,6 +281,9 @@ class Conf(typing.NamedTuple):
     named: bool = False  # no `provider` option: the section is named after the provider
     broken: typing.Optional[str] = None  # malformed stream: 'priority-text' | 'priority-table' | 'params-num' | 'params-text' | 'missing'
     given: str = 'descriptor'  # what io.Importer is handed: the resolved `setup.Feed` | 'reference' = the section's name (a str)
+    fault: typing.Optional[str] = None  # the lazily configured feed cannot be brought up: 'unknown-provider' | 'missing-key' |
+    #                                     'ctor:<exception class>' (routes direct / single)
+    natives: str = 'tuple'  # what the feed's `sources` map to: distinct tuples | 'falsy' (None, 0, '', (), ...); any member
 
 
 PLAIN = Conf()
@@ -267,6 +327,10 @@ def case_json(case: Case) -> dict:
         feed = {'priority2': p, 'advertised': [listify(a) for a in adv]}
         if case.route != 'direct' and p is not None:
             feed['section'] = conf_json(conf)
+        if conf.fault and p is not None:
+            feed['cannot_be_brought_up'] = conf.fault
+        if conf.natives != 'tuple':
+            feed['sources_map_to'] = 'falsy handles (None, 0, \'\', (), False, 0.0, frozenset())'
         pool.append(feed)
     out = {'statement': listify(case.statement), 'pool': pool}
     if case.route != 'direct':
@@ -281,8 +345,10 @@ def case_from_json(w: dict) -> Case:
     pool = []
     for f in w['pool']:
         m = (f['priority2'], tuple(tuplify(a) for a in f['advertised']))
-        if 'section' in f:
-            m += (conf_from_json(f['section']),)
+        conf = conf_from_json(f['section']) if 'section' in f else PLAIN
+        conf = conf._replace(fault=f.get('cannot_be_brought_up'), natives='falsy' if 'sources_map_to' in f else 'tuple')
+        if conf != PLAIN:
+            m += (conf,)
         pool.append(m)
     return Case(tuplify(w['statement']), tuple(pool), tuple(tuplify(b) for b in w.get('asked_before_on_the_same_importer', ())),
                 route)
@@ -297,7 +363,9 @@ def build_section(conf: Conf, prio2: int, key: int, decoy: int, aliases: tuple, 
     """(reference, the `[FEED.<reference>]` section as the TOML parser would deliver it | None = there is no such section)"""
     ref = f'c09-{key}'
     sec: dict = {}
-    if conf.named and aliases[conf.provider] not in taken:
+    if conf.fault == 'unknown-provider':
+        sec['provider'] = NOWHERE
+    elif conf.named and aliases[conf.provider] not in taken:
         ref = aliases[conf.provider]
     else:
         sec['provider'] = aliases[conf.provider]
@@ -312,7 +380,11 @@ def build_section(conf: Conf, prio2: int, key: int, decoy: int, aliases: tuple, 
         sec['priority'] = priority_value(conf, prio2)
     sec.update(conf.top)
     params = None if conf.params is None else dict(conf.params)
-    if params is None or conf.keyat == 'top':
+    if conf.fault and conf.fault.startswith('ctor:'):
+        sec['explode'] = conf.fault[5:]
+    if conf.fault == 'missing-key':
+        pass
+    elif params is None or conf.keyat == 'top':
         sec['key'] = key
     else:
         params['key'] = key
@@ -358,6 +430,9 @@ class Observed(typing.NamedTuple):
     wellformed: bool = True  # every section is there, its priority is a number, its params a table
     skeletons: tuple = ()  # per feed: the source skeleton of what the tuple parser built (None: no result / SQLAlchemy parser)
     byname: tuple = ()  # per feed: io.Importer was handed the section's reference string
+    faults: tuple = ()  # per feed: None | how the lazily configured feed fails to come up
+    falsy: tuple = ()  # per feed: its sources map to falsy handles
+    touched: tuple = ()  # keys' indices of the feed doubles the importer constructed while answering THIS request, in order
 
 
 def observe(case: Case, sql: bool = False, split_builders: bool = False) -> Observed:
@@ -390,10 +465,11 @@ def observe_all(case: Case, sql: bool = False, split_builders: bool = False) -> 
         descriptors: list = [None] * len(pool)
         byname = tuple(case.route == 'single' and prio is not None and conf.given == 'reference' for prio, _, conf in pool)
         wellformed = True
+        faults = tuple(conf.fault if prio is not None and case.route != 'multi' else None for prio, _, conf in pool)
         for i, (prio, adv, conf) in enumerate(pool):
             mapping = {}
             for j, a in enumerate(adv):
-                mapping[b2.build(a)] = _native(j, a, sql)
+                mapping[b2.build(a)] = _native(j, a, sql, conf.natives == 'falsy')
             _ADVERTISED[keys[i]] = mapping
             _ORDER[keys[i]] = [g.to_ast(o) for o in mapping]  # read back from the real objects, in mapping order
             readback.append((prio, frozenset(_ORDER[keys[i]])))
@@ -401,13 +477,19 @@ def observe_all(case: Case, sql: bool = False, split_builders: bool = False) -> 
                 explicit[i] = cls(key=keys[i])
         pool_error = None
         if case.route == 'direct':
-            slots = [explicit[i] if prio is None else Direct(aliases[0], prio / 2, keys[i]) for i, (prio, _, _) in enumerate(pool)]
+            slots = []
+            for i, (prio, _, _) in enumerate(pool):
+                params = {} if faults[i] == 'missing-key' else {'key': keys[i]}
+                if faults[i] and faults[i].startswith('ctor:'):
+                    params['explode'] = faults[i][5:]
+                slots.append(explicit[i] if prio is None else
+                             Direct(NOWHERE if faults[i] == 'unknown-provider' else aliases[0], prio / 2, params))
         else:
             group, taken = dict(saved or {}), set()
             for i, (prio, _, conf) in enumerate(pool):
                 if prio is not None:
                     decoy = keys[(i + 1) % len(keys)] if len(keys) > 1 else keys[i] + 7
-                    sections[i] = build_section(conf, prio, keys[i], decoy, aliases, taken)
+                    sections[i] = build_section(conf._replace(fault=faults[i]), prio, keys[i], decoy, aliases, taken)
                     wellformed = wellformed and conf.broken is None
                     if sections[i][1] is not None:
                         group[sections[i][0]] = sections[i][1]
@@ -430,7 +512,8 @@ def observe_all(case: Case, sql: bool = False, split_builders: bool = False) -> 
             except Exception as err:  # pylint: disable=broad-except
                 pool_error, slots = type(err).__name__, None
         out = []
-        extra = {'sections': tuple(sections), 'descriptors': tuple(descriptors), 'wellformed': wellformed, 'byname': byname}
+        extra = {'sections': tuple(sections), 'descriptors': tuple(descriptors), 'wellformed': wellformed, 'byname': byname,
+                 'faults': faults, 'falsy': tuple(conf.natives == 'falsy' and not sql for _, _, conf in pool)}
         importer = None
         if slots is not None:
             try:
@@ -490,6 +573,7 @@ def _request(importer, stmt, keys, explicit, cls, readback, earlier) -> Observed
     from forml.io import dsl
 
     stable = identity = True
+    mark = len(_CTOR_LOG)
     try:
         feed = importer.match(stmt)
         selected = keys.index(feed.key)
@@ -500,6 +584,8 @@ def _request(importer, stmt, keys, explicit, cls, readback, earlier) -> Observed
         selected = None if type(err) is forml.MissingError else ('error', type(err).__name__)
     except Exception as err:  # pylint: disable=broad-except
         selected = ('error', type(err).__name__)
+    touched = tuple(keys.index(k) for k in _CTOR_LOG[mark:] if k in keys)
+    del _CTOR_LOG[:]
     covers, parses, skeletons = [], [], []
     for i in range(len(keys)):
         feed = cls(key=keys[i])
@@ -515,14 +601,14 @@ def _request(importer, stmt, keys, explicit, cls, readback, earlier) -> Observed
                 stmt.accept(visitor)
                 result = visitor.fetch()
             parses.append('ok')
-            if isinstance(result, tuple):  # the tuple parser
+            if isinstance(result, tuple) and not any(not v for v in feed.sources.values()):  # the tuple parser, telling handles
                 skeletons[i] = skeleton(result, _ORDER[keys[i]])
         except dsl.UnprovisionedError:
             parses.append('unprovisioned')
         except Exception as err:  # pylint: disable=broad-except
             parses.append(f'other:{type(err).__name__}')
     return Observed(g.to_ast(stmt), readback, selected, stable, identity, tuple(covers), tuple(parses), earlier,
-                    skeletons=tuple(skeletons))
+                    skeletons=tuple(skeletons), touched=touched)
 
 
 def oracle(obs: Observed) -> list:
@@ -532,6 +618,12 @@ def oracle(obs: Observed) -> list:
     n = len(obs.pool)
     cov = [spec_covers(adv, s) for _, adv in obs.pool]
     rank = [float('inf') if p is None else p for p, _ in obs.pool]
+    faults = obs.faults or (None,) * n
+    # a feed that cannot be brought up cannot be returned; a fault at or above the best covering feed (ties: the text is
+    # silent) may surface - what exactly then happens is pinned by the correspondence, not by the property
+    cand = [cov[i] and faults[i] is None for i in range(n)]
+    best = max((rank[i] for i in range(n) if cand[i]), default=None)
+    shadowed = best is not None and any(faults[i] is not None and rank[i] >= best for i in range(n))
     sel = obs.selected
     if isinstance(sel, tuple) and sel[0] == 'pool-error':
         # no importer: the property has nothing to say unless the configuration is well formed
@@ -542,18 +634,25 @@ def oracle(obs: Observed) -> list:
         i = obs.byname.index(True)
         out.append((f'Importer.match raised AttributeError: feed {i} of {n} was given to io.Importer by its reference string, '
                     'which is not resolved to the configured descriptor', 'pool-member-given-by-reference-string-not-resolved'))
+    elif isinstance(sel, tuple) and any(faults):
+        if best is not None and not shadowed:
+            i = next(i for i in range(n) if cand[i] and rank[i] == best)
+            j = next(j for j in range(n) if faults[j] is not None)
+            out.append((f'Importer.match raised {sel[1]} although feed {i} of {n} (priority {rank[i] / 2}) covers the statement and '
+                        f'every feed that cannot be brought up (feed {j}: {faults[j]}, priority {rank[j] / 2}) has a lower priority',
+                        'fault-below-the-covering-feed-breaks-match'))
     elif isinstance(sel, tuple):
         out.append((f'Importer.match raised {sel[1]}', 'match-raises-' + sel[1]))
     elif sel is None:
-        if any(cov):
-            i = cov.index(True)
+        if best is not None and not shadowed:
+            i = cand.index(True)
             out.append((f'MissingError although feed {i} of {n} covers everything the statement reads',
                         'missing-error-though-a-feed-covers'))
     else:
         if not cov[sel]:
             out.append((f'feed {sel} of {n} was selected although it lacks a source the statement reads',
                         'selected-feed-does-not-cover'))
-        better = [i for i in range(n) if cov[i] and rank[i] > rank[sel]]
+        better = [i for i in range(n) if cand[i] and rank[i] > rank[sel]]
         if better:
             out.append((f'feed {sel} (priority {rank[sel] / 2}) was selected although feed {better[0]} (priority '
                         f'{rank[better[0]] / 2}) covers the statement too', 'selected-not-highest-priority'))
@@ -641,6 +740,19 @@ CORPUS += [
 ]
 
 _QB = ('query', B, (('elem', B, 'name'),), None, (), None, (), None)
+CORPUS += [
+    # a lazily configured feed that cannot be brought up: below the covering feed it must not exist, above it it surfaces
+    Case(_QA, ((9, (A,)), (1, (A,), Conf(fault='ctor:ConnectionRefusedError')))),
+    Case(_QA, ((9, (A,)), (1, (A,), Conf(fault='unknown-provider')), (None, (B,))), (), 'single'),
+    Case(_QA, ((1, (A,)), (9, (A,), Conf(fault='ctor:RuntimeError')))),
+    Case(_QA, ((9, (B,)), (1, (A,), Conf(fault='missing-key')))),
+    Case(_QA, ((4, (A,), Conf(fault='ctor:MissingError')), (4, (A,)), (4, (B,), Conf(fault='ctor:ValueError'))), (), 'single'),
+    Case(_QA, ((None, (B,)), (3, (B,)), (2, (A,)), ), (), 'single'),
+    # sources mapped to falsy handles (None, 0, '', ...): advertised all the same
+    Case(_QJ, ((None, _AB, Conf(natives='falsy')),)),
+    Case(_QJ, ((2, (_JON, A, B), Conf(natives='falsy')), (1, _AB))),
+    Case(_QRA, ((None, (_RA, A), Conf(natives='falsy')), (5, (A,), Conf(natives='falsy'))), (), 'single'),
+]
 _QSET = ('query', ('set', _QA, _QB, 'union'), (('elem', A, 'name'),), None, (), None, (), None)
 _QQA = ('query', _QA, (('elem', A, 'name'),), None, (), None, (), None)
 _RQB = ('ref', _QB, 'q')
@@ -656,7 +768,20 @@ CORPUS += [
     Case(('query', ('ref', ('set', _QA, _QB, 'union'), 'u'), (('elem', ('ref', ('set', _QA, _QB, 'union'), 'u'), 'name'),), None, (), None, (), None),
          ((None, (A, B, _QA)), (None, (A, B, ('set', _QA, _QB, 'union'))))),
 ]
+A2 = schema_twin(A)  # another catalog version of Student: same name, one more column
+_QA_2 = retable(_QA, A, A2)
+_QAL = ('query', A, (('elem', A, 'name'),), ('expr', 'gt', ('elem', A, 'level'), ('lit', ('int', -1))), (), None, (), None)
+_QAL_2 = retable(_QAL, ('lit', ('int', -1)), ('lit', ('int', -2)))  # hash(-1) == hash(-2)
 HISTORIES = [
+    # two statements that print the same (equally named tables of two catalog versions), each served by its own feed
+    Case(_QA_2, ((2, (A,)), (2, (A2,))), (_QA,)),
+    Case(_QA, ((None, (A2,)), (7, (A,))), (_QA_2, _QA, _QA_2), 'single'),
+    Case(A2, ((1, (A,)), (1, (A2,))), (A, A2, A)),
+    # two statements whose hashes collide (a literal -1 / -2), one of them advertised as a whole
+    Case(_QAL_2, ((5, (_QAL,)), (1, (A,))), (_QAL,)),
+    Case(_QAL, ((5, (_QAL_2,)), (1, (A,))), (_QAL_2, _QAL)),
+    # a fault below / above the covering feed, over a history
+    Case(_QA, ((9, (A,)), (1, (B,), Conf(fault='ctor:ValueError'))), (_QB, _QA)),
     # the high-priority feed lacks a table of the first request and covers the later ones
     Case(_QA, ((10, (A,)), (2, (A, B))), (_QB,)),
     Case(_QA, ((10, (A,)),), (_QB, _QA, _QB)),
@@ -680,20 +805,29 @@ class C09(fw.Check):
             'priority in it lies around the priorities of the pool -, the constructor argument on top / in params / both, 3 provider '
             'references, 2 % malformed: priority a string / a table, params a number / a string, section missing) resolved by '
             'setup.Feed(ref) each (3/7; 6 % of those members handed over as the bare reference string) or by setup.Feed.resolve([refs]) '
-            '(2/7).  Plus request histories: 2..6 match() calls on ONE importer instance over 2..3 distinct statements with repetitions, each request '
+            '(2/7).  In the routes with the importer\'s argument order (direct, single) 10 % of the lazily configured members cannot be '
+            'brought up (unknown provider reference, the constructor raising RuntimeError / ConnectionRefusedError / ValueError / '
+            'MissingError, a missing constructor argument), at whatever priority position; 12 % of all members map their sources to '
+            'falsy handles (None, 0, \'\', (), False, 0.0, frozenset()); in 15 % of the pools one feed serves another catalog version '
+            '(same table name, another schema) of a table.  Plus request histories: 2..6 match() calls on ONE importer instance over 2..3 distinct statements with repetitions '
+            '(in 45 % one of them has a twin that is easily taken for it: over another catalog version of a table - both print the same - or with an integer literal of the same hash), each request '
             'a case of its own; a case is distinct by (statement, pool, sections, route, earlier requests) and non-trivial when a feed '
             'advertises a non-table or the pool has >= 2 feeds.  Compared with the model: selected index (single-shot, matchSeq for '
             'histories, the configured-pool model for the config routes), matcher verdict per feed, per feed the parser outcome '
             '(ok / unprovisioned / other error class) and the source skeleton the tuple parser built against the parser machine, the '
             'SQLAlchemy parser verdict on a third, per section the descriptor (provider reference, priority, params) and the keyword '
-            'arguments the feed constructor received.  Oracle = the property text on the ASTs read back from the real objects, '
-            'feeds ranked by their configured priority.')
+            'arguments the feed constructor received, and which lazily configured feeds the importer constructed for the request, in order '
+            '(constructor log of the doubles) / what a fault makes of the match, against matchFault.  Oracle = the property text on the ASTs read back from the real objects, '
+            'feeds ranked by their configured priority; a feed that cannot be brought up is no candidate, a fault at or above the best '
+            'covering feed may surface (the correspondence pins how), a fault below it must not.')
     TRUSTED = [
         'source equality inside frozenset/dict is structural on the generated cases (hash-colliding literals are excluded from '
         'the near misses: C08)',
         'the tuple parser double implements only generate_* (pure wrappers); resolve_source/bypass/visit_* are forml code',
     ]
-    ASSUMPTIONS = ['priorities are finite floats, multiples of 0.5 (no NaN); ties are resolved in construction order as documented '
+    ASSUMPTIONS = ['bringing a lazily configured feed up is deterministic (it fails always or never) and the priority of a slot is known '
+                   'without instantiating it',
+                   'priorities are finite floats, multiples of 0.5 (no NaN); ties are resolved in construction order as documented '
                    '("the first feed with the highest priority"), after setup.Feed.resolve by the provider reference',
                    'configuration sections enter as the dicts the TOML parser delivers (put into forml.setup CONFIG for the duration '
                    'of a case); the file parsing / merging itself is not exercised; numeral strings and booleans are not used as priority',
@@ -815,6 +949,35 @@ class C09(fw.Check):
         return Conf(form, top, params, keyat, r.choice((0, 0, 1, 2)), r.random() < 0.1, broken,
                     'reference' if r.random() < 0.06 else 'descriptor')
 
+    def _dress(self, pool: list, route: str, levels) -> tuple:
+        """how the members come about: the section of a lazily configured one (config routes), whether it can be brought up
+        at all (routes direct / single: 10 % cannot - unknown provider reference, a constructor raising, a missing
+        parameter - at whatever priority position it happens to stand), what handles its sources map to (12 % falsy)"""
+        r = self.rng
+        out = []
+        for m in pool:
+            prio, adv = m[0], m[1]
+            conf = self._conf(prio, levels) if route != 'direct' and prio is not None else PLAIN
+            if prio is not None and route != 'multi' and r.random() < 0.1:
+                conf = conf._replace(fault=r.choice(('unknown-provider', 'missing-key') + tuple('ctor:' + c for c in REFUSALS)))
+            if r.random() < 0.12:
+                conf = conf._replace(natives='falsy')
+            out.append((prio, adv) if conf == PLAIN else (prio, adv, conf))
+        return tuple(out)
+
+    def _twin(self, stmt):
+        """a different statement that is easily taken for `stmt`: over another catalog version of one of its tables (same
+        name: the two print the same), or with an integer literal replaced by one of the same hash"""
+        r = self.rng
+        lits = list(dict.fromkeys(int_literals(stmt)))
+        if lits and r.random() < 0.3:
+            lit = r.choice(lits)
+            twin = retable(stmt, lit, ('lit', ('int', colliding(lit[1][1]))))
+        else:
+            table = r.choice(tables_of(stmt))
+            twin = retable(stmt, table, schema_twin(table, r.randrange(2)))
+        return twin if twin != stmt and g.well_formed(twin)[0] and self._builds(twin) else None
+
     def _route(self) -> str:
         return self.rng.choice(('direct', 'direct', 'single', 'single', 'single', 'multi', 'multi'))
 
@@ -829,9 +992,15 @@ class C09(fw.Check):
         if n > 1 and r.random() < 0.3:
             # the same advertised set at different positions / priorities: only the order decides
             pool[r.randrange(n)] = (pool[0][0] if r.random() < 0.5 else r.choice(levels), pool[0][1])
-        if route != 'direct':
-            pool = [m if m[0] is None else m + (self._conf(m[0], levels),) for m in pool]
-        return tuple(pool)
+        if r.random() < 0.15:
+            # one feed serves another catalog version of a table (same name, another schema)
+            i, table = r.randrange(n), r.choice(tables_of(stmt))
+            for variant in (r.randrange(2), 0):  # (dropping a column the advertised statement uses would not build)
+                adv = tuple(dict.fromkeys(retable(a, table, schema_twin(table, variant)) for a in pool[i][1]))
+                if all(self._builds(a) for a in adv):
+                    pool[i] = (pool[i][0], adv)
+                    break
+        return self._dress(pool, route, levels)
 
     def _histories(self, gen) -> list:
         """Request histories: 2..6 `match()` calls on ONE importer instance over 2..3 distinct statements (repetitions hit
@@ -846,6 +1015,10 @@ class C09(fw.Check):
                 stmt = self._statement(gen) if r.random() < 0.7 else r.choice(g.CATALOG)
                 if stmt not in distinct and self._builds(stmt) and (self._parseable(stmt) or r.random() < 0.1):
                     distinct.append(stmt)
+            if r.random() < 0.45:
+                twin = self._twin(r.choice(distinct))
+                if twin is not None and twin not in distinct:
+                    distinct.append(twin)
             asked = list(distinct) + [r.choice(distinct) for _ in range(r.randint(0, 6 - len(distinct)))]
             r.shuffle(asked)
             levels = r.choice(((2, 2, 2), (0, 2, 2), (1, 4, 9), (-4, 0, 5), (5, 4, 4)))
@@ -857,9 +1030,7 @@ class C09(fw.Check):
                     adv = tuple(dict.fromkeys(adv + self._advertised(r.choice(distinct), target)))
                 pool.append((None if r.random() < 0.25 else r.choice(levels), adv))
             route = self._route()
-            if route != 'direct':
-                pool = [m if m[0] is None else m + (self._conf(m[0], levels),) for m in pool]
-            out.append(Case(asked[-1], tuple(pool), tuple(asked[:-1]), route))
+            out.append(Case(asked[-1], self._dress(pool, route, levels), tuple(asked[:-1]), route))
         return out
 
     def _cases(self) -> list:
@@ -1005,6 +1176,10 @@ class C09(fw.Check):
                                                                  for sec in obs.sections if sec)),
                                       ('malformed', not obs.wellformed)) if hit]
             conf = ' configured' + (('[' + ','.join(flags) + ']') if flags else '')
+        if any(obs.faults):
+            conf += ' faulty'
+        if any(obs.falsy):
+            conf += ' falsy-handles'
         if isinstance(obs.selected, tuple) and obs.selected[0] == 'pool-error':
             return f'feeds={n}{conf} -> no pool ({obs.selected[1]})'
         return f'feeds={n}{conf} advertised={nont} -> {res}'
@@ -1018,14 +1193,19 @@ class C09(fw.Check):
             asked = case.before + (case.statement,)
             for j, obs in enumerate(run):
                 entries.append((Case(asked[j], case.pool, asked[:j], case.route), obs, idx))
-            if case.before and case.route != 'multi' and not (isinstance(run[0].selected, tuple) and run[0].selected[0] == 'pool-error'):
-                seqs.append((case, run))  # (multi: every request is compared by _compare_configured)
+            if (case.before and case.route != 'multi' and not any(run[0].faults)
+                    and not (isinstance(run[0].selected, tuple) and run[0].selected[0] == 'pool-error')):
+                seqs.append((case, run))  # (multi: every request is compared by _compare_configured, faults: by _compare_lazy)
         lines = [self.line(o) for _, o, _ in entries]
         for case, run in seqs:
             pool = tuple(('inf' if p is None else p, tuple(g.short(a) for a in sorted(adv, key=repr))) for p, adv in run[0].pool)
             lines.append(sexp.dumps(g.with_let(('c09seq', tuple(g.short(o.statement) for o in run), pool))))
         configured = [k for k, (case, _, _) in enumerate(entries) if case.route != 'direct']
         lines += [self.conf_line(entries[k][1], entries[k][0].route) for k in configured]
+        # pools in importer-argument order (direct / single): which members are brought up, what a fault makes of the match
+        lazy = [k for k, (case, obs, _) in enumerate(entries) if case.route != 'multi'
+                and not (isinstance(obs.selected, tuple) and obs.selected[0] == 'pool-error') and not any(obs.byname)]
+        lines += [self.fault_line(entries[k][1]) for k in lazy]
         answers = self.model(lines)
         for (case, run), ans in zip(seqs, answers[len(entries):]):
             m = sexp.loads(ans)
@@ -1035,6 +1215,8 @@ class C09(fw.Check):
                 self.diverge('answers of one importer instance to a request history', case_json(case), got, want)
         for k, ans in zip(configured, answers[len(entries) + len(seqs):]):
             self._compare_configured(entries[k][0], entries[k][1], ans)
+        for k, ans in zip(lazy, answers[len(entries) + len(seqs) + len(configured):]):
+            self._compare_lazy(entries[k][0], entries[k][1], ans)
         sql_done = set()
         for (case, obs, idx), ans in zip(entries, answers):
             nontrivial = len(obs.pool) > 1 or any(a[0] != 'table' for _, adv in obs.pool for a in adv)
@@ -1056,7 +1238,7 @@ class C09(fw.Check):
             msel, mcov, mres, mfull = m
             pool_error = isinstance(obs.selected, tuple) and obs.selected[0] == 'pool-error'
             if not pool_error:
-                if case.route != 'multi' and obs.selected != msel:  # multi: `setup.Feed.resolve` re-orders, see _compare_configured
+                if case.route != 'multi' and not any(obs.faults) and obs.selected != msel:  # otherwise: _compare_configured / _lazy
                     self.diverge('Importer.match selection', witness, obs.selected, msel)
                 if list(obs.covers) != mcov:
                     self.diverge('matcher verdict per feed', witness, list(obs.covers), mcov)
@@ -1095,6 +1277,37 @@ class C09(fw.Check):
             whats = [w for w, s in self._violations_of(small) if s == sig]
             self.violate(whats[0] if whats else what, case_json(small), sig)
 
+    @staticmethod
+    def fault_line(obs: Observed) -> str:
+        """`(c09fault statement pool)`: every member with what bringing it up yields"""
+        pool = []
+        for (p, adv), fault in zip(obs.pool, obs.faults or (None,) * len(obs.pool)):
+            what = ('feed', tuple(g.short(a) for a in sorted(adv, key=repr)))
+            if fault is not None:
+                what = ('fails', {'unknown-provider': 'MissingError', 'missing-key': 'TypeError'}.get(fault, fault[5:]))
+            pool.append(('inf' if p is None else p, what))
+        return sexp.dumps(g.with_let(('c09fault', g.short(obs.statement), tuple(pool))))
+
+    def _compare_lazy(self, case: Case, obs: Observed, ans: str) -> None:
+        """the importer brings its lazily configured feeds up one by one, in pool order, only as far as it has to"""
+        witness = case_json(case)
+        m = sexp.loads(ans)
+        if not isinstance(m, list) or m[0] != 'ok':
+            self.diverge('model rejected the pool', witness, None, ans)
+            return
+        msel = (None if m[1] == 'none' else int(m[1][1]) if m[1][0] == 'some'
+                else None if m[1][1] == 'MissingError' else ('error', m[1][1]))  # (a MissingError is a MissingError, whoever raises it)
+        if obs.selected != msel:
+            self.diverge('Importer.match on a pool with a feed that cannot be brought up' if any(obs.faults)
+                         else 'Importer.match selection', witness, obs.selected, msel)
+        if obs.earlier == 0:
+            # constructor calls are observable for the lazily configured doubles whose provider exists and which are given a key
+            seen = [i for i in (int(x) for x in m[2]) if obs.pool[i][0] is not None
+                    and (obs.faults[i] is None or obs.faults[i].startswith('ctor:'))]
+            if list(obs.touched) != seen:
+                self.diverge('lazily configured feeds the importer brought up for this request (in order)', witness,
+                             list(obs.touched), seen)
+
     def _compare_configured(self, case: Case, obs: Observed, ans: str) -> None:
         """pools built from the configuration against `(c09conf ...)`: the descriptor of every section (provider reference,
         priority, params), what the feed constructor received, whether a pool could be built at all, the selection"""
@@ -1104,7 +1317,7 @@ class C09(fw.Check):
             self.diverge('model rejected the configured pool', witness, None, ans)
             return
         msel, reports = m
-        if obs.selected != msel:
+        if obs.selected != msel and not any(obs.faults):  # (the configured-pool model knows no faults: _compare_lazy)
             self.diverge(f'selection from the pool built by {witness["descriptors_resolved_by"]}', witness, obs.selected, msel)
         if obs.earlier:
             return
@@ -1207,7 +1420,7 @@ class C09(fw.Check):
                     break
                 # a simpler section: no special way of writing it, fewer options
                 conf = member(case.pool[i])[2]
-                simpler = []
+                simpler = [conf._replace(**{f: getattr(PLAIN, f)}) for f in ('fault', 'natives') if getattr(conf, f) != getattr(PLAIN, f)]
                 if case.route != 'direct' and prio is not None and conf != PLAIN:
                     simpler.append(PLAIN)
                     if conf.params:
@@ -1217,7 +1430,7 @@ class C09(fw.Check):
                                 if getattr(conf, f) != getattr(PLAIN, f) and not (f == 'form' and prio % 2)
                                 and not (f == 'keyat' and conf.params is None)]
                 for c in simpler:
-                    cand = case._replace(pool=case.pool[:i] + ((prio, adv, c),) + case.pool[i + 1:])
+                    cand = case._replace(pool=case.pool[:i] + ((prio, adv) + (() if c == PLAIN else (c,)),) + case.pool[i + 1:])
                     if fails(cand):
                         case, changed = cand, True
                         break
@@ -1269,6 +1482,13 @@ class C09(fw.Check):
                             for pool in (((prio, everything, conf), (rival, everything, PLAIN)),
                                          ((rival, everything, PLAIN), (prio, everything, conf))):
                                 cands.append(Case(seed.statement, pool, (), route))
+            if seed.route != 'multi':
+                # laziness: every lazily configured member in turn replaced by one that cannot be brought up
+                for i, m in enumerate(seed.pool):
+                    prio, adv, conf = member(m)
+                    if prio is not None and conf.fault is None:
+                        for fault in ('ctor:RuntimeError', 'unknown-provider'):
+                            cands.append(seed._replace(pool=seed.pool[:i] + ((prio, adv, conf._replace(fault=fault)),) + seed.pool[i + 1:]))
             for cand in cands[:700]:
                 tried += 1
                 for what, sig in self._violations_of(cand):
